@@ -739,6 +739,9 @@ func judgeLine(b *builtArch, ln LineSpec, strict bool) (v lineVerdict) {
 			}
 		}
 		sig := "wrap:" + ln.Op
+		if classes["r2v-vtm"] {
+			sig = "wrap:r2v-vtextmem-depth"
+		}
 		if ln.Op == "tsp" {
 			sig = "accept:tsp-unknown-register"
 			for _, x := range ops {
